@@ -153,13 +153,14 @@ class MultipartDecoder:
             re.MULTILINE,
         )
 
-    def last_newline(self) -> int:
+    def last_newline(self, start: int = 0) -> int:
+        start = max(start, 0)
         try:
-            last_nl = self.buffer.rindex(b"\n")
+            last_nl = self.buffer.rindex(b"\n", start)
         except ValueError:
             last_nl = len(self.buffer)
         try:
-            last_cr = self.buffer.rindex(b"\r")
+            last_cr = self.buffer.rindex(b"\r", start)
         except ValueError:
             last_cr = len(self.buffer)
 
@@ -208,8 +209,12 @@ class MultipartDecoder:
                 # No complete boundary in the buffer, but there may be
                 # a partial boundary at the end. As the boundary
                 # starts with either a nl or cr find the earliest and
-                # return up to that as data.
-                data_length = del_index = self.last_newline()
+                # return up to that as data. A line break further back
+                # than the longest partial boundary cannot start one, so
+                # a lone nl or cr in the data must not hold it all back.
+                data_length = del_index = self.last_newline(
+                    len(self.buffer) - len(self.boundary) - 3
+                )
                 more_data = True
             else:
                 match = self.boundary_re.search(self.buffer)
